@@ -93,6 +93,26 @@ instance HistOK.instDecidable (s : Bytes) : (h : List SegD) → Decidable (HistO
     have := HistOK.instDecidable s h
     (inferInstance : Decidable (g.okAt s (frontier (h.map SegD.seg) s.length) ∧ HistOK s h))
 
+/-- sufficient static condition for a valid history: every segment starts less than 2^31 before the END of the
+    stream (hence before any delivery point), ends inside the stream and carries bytes of the stream -/
+def SegD.okStatic (s : Bytes) (g : SegD) : Prop :=
+  (s.length : Int) - g.off < 2147483648 ∧ g.off + (g.data.length : Int) ≤ (s.length : Int) ∧ g.agrees s
+
+instance (s : Bytes) (g : SegD) : Decidable (g.okStatic s) := by unfold SegD.okStatic; infer_instance
+
+/-- the public mutators of `DataTracker` (for statements about every reachable state) -/
+inductive Op where
+  | seg (seq : Nat) (payload : Bytes)
+  | adv (seq : Nat)
+
+def applyOp (t : Tracker) : Op → Tracker
+  | .seg q p => (processPayload t q p).1
+  | .adv q => advanceSequence t q
+
+/-- the model run over an arrival history given OLDEST arrival first (the order of time) -/
+def runModelFwd (isn : Nat) (h : List SegD) : Tracker :=
+  h.foldl (fun t g => (processPayload t (seqOf isn g.off) g.data).1) (Tracker.init isn)
+
 /-- the model run over an arrival history (latest arrival first) from `DataTracker(isn)` -/
 def runModel (isn : Nat) : List SegD → Tracker
   | [] => Tracker.init isn
